@@ -61,6 +61,11 @@ Definition labels_ok (c : case) : bool :=
 
 Definition check_C01 (c : case) : bool := forallb (stream_ok c) (streams (c_labels c)) && labels_ok c.
 
-Definition mismatches (l : list (N * case)) : list N := failing_ids agrees l.
+(* more downstream than source channels (the mapping key is the downstream channel, a handler reads streams of several source
+   channels): this mode is outside the reader model - no theorem applies and the model is not compared; the statement of the
+   property is still checked on the observed trace (stream_ok, labels_ok) *)
+Definition outside_model (c : case) : bool :=
+  match c_labels c with Config ns nt :: _ => N.ltb ns nt && negb (N.eqb ns 0) | _ => false end.
+Definition mismatches (l : list (N * case)) : list N := failing_ids (fun c => outside_model c || agrees c) l.
 Definition checkfails (l : list (N * case)) : list N := failing_ids check_C01 l.
 Definition knownclass (l : list (N * case)) : list (N * N) := [].
